@@ -1,10 +1,14 @@
 --------------------------- MODULE Scen_Proposer ---------------------------
-(* Scenario generator for C05.  A scenario is the environment's side of one duty: how the        *)
-(* service is built (graffiti provider, auctioneer, unblind-from-all), and what each            *)
-(* collaborator answers.  TLC walks the sequential part of Proposer.tla's design (`Next`) and    *)
-(* collects the environment's choices in `sc`; the concurrent part (the relay goroutines) is    *)
-(* represented by one script per candidate relay - the order in which the goroutines run is not *)
-(* the driver's to choose.  Every terminal path is printed once (exhaustive mode).              *)
+(* Scenario generator for C05.  A scenario is the environment's side of the HISTORY of one       *)
+(* service instance: how the service is built (graffiti provider, proposal provider with or     *)
+(* without NodeClient, auctioneer, unblind-from-all), and, for each of its NDuties duties in    *)
+(* turn, what each collaborator answers.  TLC walks the sequential part of Proposer.tla's       *)
+(* design (`Next`) and collects the environment's choices in `sc`; the concurrent part (the     *)
+(* relay goroutines) is represented by one script per candidate relay - the order in which the  *)
+(* goroutines run is not the driver's to choose.  Every terminal path is printed once           *)
+(* (exhaustive mode).  The first duty ranges over the full sets, the later ones over the        *)
+(* Later... sets (bounds; which failure of an earlier duty is followed by which later duty is   *)
+(* enumerated completely within them).                                                          *)
 (* The scripts of a relay:                                                                      *)
 (*   full     returns the full block for what it was sent                                      *)
 (*   err      fails every attempt (the code tries three times, 250 ms apart)                    *)
@@ -12,64 +16,85 @@
 (*   nilresp  returns no response and no error                                                  *)
 (*   never    does not return until the context ends                                            *)
 (*   errfull  fails the first attempt, returns the full block on the second                     *)
+(* Graffiti: static (a text) / template (a text with {{CLIENT}}; the code then asks the          *)
+(* proposal provider for the node client: ok / err) / err (the provider fails).                 *)
 EXTENDS Proposer, Json
 
-CONSTANTS Scripts,          \* relay scripts to enumerate
-          GraffitiOuts,     \* outcomes of the graffiti lookup to enumerate
-          NRelays           \* Relays = 1..NRelays
+CONSTANTS Scripts,          \* relay scripts to enumerate (first duty)
+          GraffitiOuts,     \* outcomes of the graffiti lookup to enumerate (first duty)
+          NRelays,          \* Relays = 1..NRelays
+          PrepOuts,         \* outcomes of the accounts lookup (first duty)
+          CfgFilter,        \* "nonodeclient": proposal providers without NodeClient (no template graffiti in the run);
+                            \* "graffiti": only services with a graffiti provider and without unblind-from-all
+          LaterScripts, LaterGraffitiOuts, LaterPrepOuts, LaterNodeClientOuts, LaterStepOuts
 
 VARIABLE sc
 svars == <<vars, sc>>
 
 Flags(S) == [r \in 1..NRelays |-> r \in S]
 
-Base == [slot |-> duty.slot, v |-> duty.v, cfg |-> cfg,
-         accounts |-> "na", randao |-> "na", graffiti |-> "na",
-         auction |-> [kind |-> "none", all |-> Flags({}), providers |-> Flags({})],
-         proposal |-> [out |-> "na", version |-> "none", blinded |-> FALSE, dslot |-> 0],
-         sign |-> "na",
-         relays |-> [r \in 1..NRelays |-> "none"],
-         submit |-> "na"]
+Base(d) == [slot |-> d.slot, v |-> d.v,
+            accounts |-> "na", randao |-> "na", graffiti |-> "na", nodeclient |-> "na",
+            auction |-> [kind |-> "none", all |-> Flags({}), providers |-> Flags({})],
+            proposal |-> [out |-> "na", version |-> "none", blinded |-> FALSE, dslot |-> 0],
+            sign |-> "na",
+            relays |-> [r \in 1..NRelays |-> "none"],
+            submit |-> "na"]
 
-SInit == Init /\ sc = Base
+SInit ==
+    /\ Init
+    /\ CfgFilter = "graffiti" => (cfg.graffiti /\ ~cfg.unblindAll)
+    /\ CfgFilter = "nonodeclient" => ~cfg.nodeclient
+    /\ sc = [cfg |-> cfg, duties |-> <<Base(duty)>>]
 
-Put(f, x) == sc' = [sc EXCEPT ![f] = x]
+Put(f, x) == sc' = [sc EXCEPT !.duties[k][f] = x]
 
 Delivers(script) == \E r \in DOMAIN script : script[r] \in {"full", "errfull"}
 
+\* ok / err of a step that either works or fails
+StepOuts == Bound({"ok", "err"}, LaterStepOuts)
+
 SNext ==
-    \/ \E out \in {"ok", "err", "empty"} : AccountsCall(Epoch(duty.slot), <<duty.v>>, out) /\ Put("accounts", out)
-    \/ \E out \in {"ok", "err"} : RandaoCall(duty.v, duty.slot, out, 1) /\ Put("randao", out)
+    \/ \E out \in Bound(PrepOuts, LaterPrepOuts) : AccountsCall(Epoch(duty.slot), <<duty.v>>, out) /\ Put("accounts", out)
+    \/ \E out \in Bound({"ok", "err"}, LaterPrepOuts \cap {"ok", "err"}) : RandaoCall(duty.v, duty.slot, out, 1) /\ Put("randao", out)
     \/ ProposeCall /\ UNCHANGED sc
-    \/ \E out \in GraffitiOuts : GraffitiCall(out) /\ Put("graffiti", out)
-    \/ AuctionCall("err", {}, {}) /\ Put("auction", [kind |-> "err", all |-> Flags({}), providers |-> Flags({})])
-    \/ \E all \in AllChoices : \E providers \in SUBSET all :
+    \/ \E out \in Bound(GraffitiOuts, LaterGraffitiOuts) : GraffitiCall(out) /\ Put("graffiti", out)
+    \/ \E out \in Bound({"ok", "err"}, LaterNodeClientOuts) : NodeClientCall(out) /\ Put("nodeclient", out)
+    \/ /\ pc = "auction" /\ "err" \in StepOuts
+       /\ AuctionCall("err", {}, {}) /\ Put("auction", [kind |-> "err", all |-> Flags({}), providers |-> Flags({})])
+    \/ /\ pc = "auction"
+       /\ \E all \in Bound(AllChoices, LaterAllChoices) : \E providers \in SUBSET all :
             /\ AuctionCall("results", all, providers)
             /\ Put("auction", [kind |-> "results", all |-> Flags(all), providers |-> Flags(providers)])
-    \/ /\ ProposalCall(duty.slot, graffiti # "ok", randao.token, "err", NoProp)
+    \/ /\ pc = "proposal" /\ "err" \in StepOuts
+       /\ ProposalCall(duty.slot, graffiti \notin {"static", "template"}, randao.token, "err", NoProp)
        /\ Put("proposal", [out |-> "err", version |-> "none", blinded |-> FALSE, dslot |-> 0])
-    \/ \E p \in Proposals :
-            /\ ProposalCall(duty.slot, graffiti # "ok", randao.token, "ok", p)
+    \/ /\ pc = "proposal"
+       /\ \E p \in Proposals :
+            /\ ProposalCall(duty.slot, graffiti \notin {"static", "template"}, randao.token, "ok", p)
             /\ Put("proposal", [out |-> "ok", version |-> p.version, blinded |-> p.blinded, dslot |-> p.slot - duty.slot])
     \/ /\ prop.slot = duty.slot
-       /\ \E out \in {"ok", "err"} :
+       /\ \E out \in StepOuts :
             /\ SignCall(duty.v, duty.slot, duty.v, Root(prop.id, "parent"), Root(prop.id, "state"),
                         Root(prop.id, "body"), out, 1)
             /\ Put("sign", out)
     \* the relays' scripts and the submission outcome, in one step
     \/ /\ pc = "signed" /\ sig # 0 /\ prop.blinded /\ Cand # {}
-       /\ \E script \in [Cand -> Scripts] :
-          \E sub \in (IF Delivers(script) THEN {"ok", "err"} ELSE {"na"}) :
-            sc' = [sc EXCEPT !.relays = [r \in 1..NRelays |-> IF r \in Cand THEN script[r] ELSE "none"],
-                             !.submit = sub]
+       /\ \E script \in [Cand -> Bound(Scripts, LaterScripts)] :
+          \E sub \in (IF Delivers(script) THEN StepOuts ELSE {"na"}) :
+            sc' = [sc EXCEPT !.duties[k].relays = [r \in 1..NRelays |-> IF r \in Cand THEN script[r] ELSE "none"],
+                             !.duties[k].submit = sub]
        /\ pc' = "done"
-       /\ UNCHANGED <<duty, cfg, acct, randao, graffiti, auction, preq, prop, sreq, sig, calls, sent, fulls,
+       /\ UNCHANGED <<hvars, acct, randao, graffiti, nodeclient, auction, preq, prop, sreq, sig, calls, sent, fulls,
                       cancelled, submitted, subout>>
     \/ /\ sig # 0 /\ ~prop.blinded
-       /\ \E out \in {"ok", "err"} : SubmitCall(OwnDesc(prop, sig), out) /\ Put("submit", out)
+       /\ \E out \in StepOuts : SubmitCall(OwnDesc(prop, sig), out) /\ Put("submit", out)
     \/ MayReturn /\ Ret /\ UNCHANGED sc
+    \/ \E g \in SlotGaps : \E v \in Validators :
+            /\ NextDuty(duty.slot + g, v)
+            /\ sc' = [sc EXCEPT !.duties = Append(@, Base([slot |-> duty.slot + g, v |-> v]))]
 
 SSpec == SInit /\ [][SNext]_svars
 
-Emit == (pc = "done") => PrintT(ToJson(sc))
+Emit == (pc = "done" /\ k = NDuties) => PrintT(ToJson(sc))
 =============================================================================
